@@ -20,6 +20,7 @@ import (
 	"bytes"
 	"errors"
 	"fmt"
+	"os"
 	"sort"
 	"strconv"
 	"strings"
@@ -45,8 +46,9 @@ var refs = map[byte][]string{
 
 func significant(c byte) bool { return c == '&' || c == '<' || c == '>' || c == '"' || c == '\'' }
 
-// verify walks input and output in lock step. It returns "" when out is in escaped form of in.
-func verify(in, out string) string {
+// walk consumes from the front of out the escaped form of in, in lock step. It returns the number of
+// bytes of out consumed and "" when every byte of in was matched.
+func walk(in, out string) (int, string) {
 	j := 0
 	for i := 0; i < len(in); i++ {
 		c := in[i]
@@ -60,17 +62,26 @@ func verify(in, out string) string {
 				}
 			}
 			if !ok {
-				return fmt.Sprintf("input byte %d (%q) is not replaced by a character reference for it (output continues with %q)", i, string(c), clip(out[j:], 12))
+				return j, fmt.Sprintf("input byte %d (%q) is not replaced by a character reference for it (output continues with %q)", i, string(c), clip(out[j:], 12))
 			}
 			continue
 		}
 		if j >= len(out) {
-			return fmt.Sprintf("output ends before input byte %d (0x%02x)", i, c)
+			return j, fmt.Sprintf("output ends before input byte %d (0x%02x)", i, c)
 		}
 		if out[j] != c {
-			return fmt.Sprintf("input byte %d (0x%02x) does not pass through unchanged (output has %q)", i, c, clip(out[j:], 12))
+			return j, fmt.Sprintf("input byte %d (0x%02x) does not pass through unchanged (output has %q)", i, c, clip(out[j:], 12))
 		}
 		j++
+	}
+	return j, ""
+}
+
+// verify walks input and output in lock step. It returns "" when out is in escaped form of in.
+func verify(in, out string) string {
+	j, why := walk(in, out)
+	if why != "" {
+		return why
 	}
 	if j != len(out) {
 		return fmt.Sprintf("output has %d extra bytes %q", len(out)-j, clip(out[j:], 12))
@@ -647,6 +658,7 @@ type blockCfg struct {
 	bytesLen int  // 2: every byte string of length <= 2 (256 blocks); 1: the 256 single bytes only (4 blocks)
 	maxRep   int  // boundary lengths up to this repeat count
 	long     bool // the 1 MiB strings
+	refsLen  int  // already-escaped forms: 2 = singles and pairs only; 0 / 3 = singles, pairs and triples
 	cpEnd    int  // code points below this bound
 	// cpAlone: the code point also alone (otherwise inside a?& only); cpCore: on the core routes only
 	cpAlone, cpCore func(base int) bool
@@ -698,6 +710,9 @@ func buildBlocks(cfg blockCfg) []block {
 				f(refAlphabet[i] + y)
 			}
 			for _, y := range refAlphabet {
+				if cfg.refsLen == 2 {
+					break
+				}
 				for _, z := range refAlphabet {
 					f(refAlphabet[i] + y + z)
 				}
@@ -707,21 +722,23 @@ func buildBlocks(cfg blockCfg) []block {
 	// 4. every string of length <= L over the alphabet, blocks of 111 strings
 	L := cfg.L
 	P := L - 2 // blocks are keyed by a prefix of P symbols and hold the 111 strings of length P..L with that prefix
-	bs = append(bs, block{family: "alpha", key: fmt.Sprintf("3-alpha/0-len<%d", P), gen: func(f func(string)) {
-		level := []string{""}
-		for n := 0; n < P; n++ {
-			var next []string
-			for _, s := range level {
-				if n > 0 {
-					f(s)
+	if P >= 2 { // the strings shorter than the block prefix (none when P < 2)
+		bs = append(bs, block{family: "alpha", key: fmt.Sprintf("3-alpha/0-len<%d", P), gen: func(f func(string)) {
+			level := []string{""}
+			for n := 0; n < P; n++ {
+				var next []string
+				for _, s := range level {
+					if n > 0 {
+						f(s)
+					}
+					for _, a := range alphabet {
+						next = append(next, s+a)
+					}
 				}
-				for _, a := range alphabet {
-					next = append(next, s+a)
-				}
+				level = next
 			}
-			level = next
-		}
-	}})
+		}})
+	}
 	var prefixes func(p string, idx string, n int)
 	prefixes = func(p string, idx string, n int) {
 		if n == P {
@@ -979,6 +996,49 @@ func main() {
 			for _, b := range shapeBlocks(t.Thorough()) {
 				b := b
 				t.Case("7-shape/"+b.key, func() *vlib.Outcome { return runShapeBlock(t, b) })
+			}
+			only := os.Getenv("C07_ONLY") // DEVTMP
+			tc := func(key string, fn func() *vlib.Outcome) {
+				if only == "" || strings.HasPrefix(key, only) {
+					t.Case(key, fn)
+				}
+			}
+			// apply-block bodies (bodies.go): every kind of direct child, alone and in mixtures of two / three
+			groups := abGroupNames()
+			for g, gname := range groups {
+				g := g
+				tc("8-applybody/0-nonstring/"+gname, func() *vlib.Outcome { return runBodyNonStrings(t, g) })
+			}
+			for _, b := range bodyBlocks(t.Thorough()) {
+				b := b
+				triples := bodyTriples(b, t.Thorough())
+				for g, gname := range groups {
+					g := g
+					tc("8-applybody/"+b.key+"/"+gname, func() *vlib.Outcome { return runBodyBlock(t, b, g, triples) })
+				}
+			}
+			// macro text with several references to the same variable (mtext.go)
+			var sets []*mtSet
+			set := func(i int) *mtSet {
+				if sets == nil {
+					n := 3
+					if t.Thorough() {
+						n = 4
+					}
+					sets = mtSets(n)
+				}
+				return sets[i]
+			}
+			for i, sname := range []string{"env", "noenv"} {
+				i := i
+				tc("9-macrotext/0-nonstring/"+sname, func() *vlib.Outcome { return runMacroTextNonStrings(t, set(i)) })
+			}
+			for _, b := range macroTextBlocks(t.Thorough()) {
+				b := b
+				for i, sname := range []string{"env", "noenv"} {
+					i := i
+					tc("9-macrotext/"+b.key+"/"+sname, func() *vlib.Outcome { return runMacroTextBlock(t, b, set(i)) })
+				}
 			}
 		},
 		Extra: func(tier string, cov map[string]interface{}) {
